@@ -630,10 +630,13 @@ impl Drop for OsOpaqueIpcChannel {
     fn drop(&mut self) {
         // Make sure we don't leak!
         //
-        // The `OsOpaqueIpcChannel` objects should always be used,
-        // i.e. converted with `to_sender()` or `to_receiver()` --
-        // so the value should already be unset before the object gets dropped.
-        debug_assert!(self.fd == -1);
+        // An `OsOpaqueIpcChannel` that was never converted with `to_sender()` or `to_receiver()`
+        // (a message that failed to decode, was dropped undecoded, or was truncated)
+        // still owns its descriptor, so it has to be released here.
+        if self.fd >= 0 {
+            let result = unsafe { libc::close(self.fd) };
+            assert!(thread::panicking() || result == 0);
+        }
     }
 }
 
